@@ -17,6 +17,90 @@ From BV Require Import Base.Prelude Model.Block Model.ForkDB Model.Forkable Mode
   Proofs.C07_FilesFinal Proofs.C07_Raw Proofs.C07_Shapes Proofs.C07_Filters Proofs.C07_ChainFacts Proofs.C07_Delivery.
 Local Open Scope N_scope.
 
+(* ------------------------------------------------------------------ the join "through the cursor" proper *)
+
+Section ThroughOn.
+  Variable U : list block.
+  Variables first kept : N.
+  Hypothesis U_id : forall b, In b U -> bid b <> 0 /\ bid b <> bparent b.
+  Hypothesis U_uniq : forall x y, In x U -> In y U -> bid x = bid y -> x = y.
+  Hypothesis U_up : forall x y, In x U -> In y U -> bparent x = bid y -> bnum y < bnum x.
+
+  (* two parent-linked runs through the same block B: a block of the second at or below B and not below the first's
+     bottom is on the first *)
+  Lemma anc_on_run (G Cn : list block) (g0 : block) (G' : list block) (B bn : block) :
+    G = g0 :: G' -> (exists x, lnk x G) -> (exists x, lnk x Cn) ->
+    Forall (fun y => In y U) G -> Forall (fun y => In y U) Cn ->
+    In B G -> In B Cn -> In bn Cn -> bnum bn <= bnum B -> bnum g0 <= bnum bn -> In bn G.
+  Proof.
+    intros EG [xg HlG] [xc HlC] HGU HCU HBG HBC Hbn Hle Hg0.
+    destruct (in_split _ _ HBG) as (G1 & G2 & EG1). destruct (in_split _ _ HBC) as (C1 & C2 & EC1).
+    assert (HlG1 : lnk xg (G1 ++ [B])).
+    { apply (linked_prefix xg (G1 ++ [B]) G2). rewrite <- app_assoc. cbn [app]. rewrite <- EG1. exact HlG. }
+    assert (HlC1 : lnk xc (C1 ++ [B])).
+    { apply (linked_prefix xc (C1 ++ [B]) C2). rewrite <- app_assoc. cbn [app]. rewrite <- EC1. exact HlC. }
+    assert (HGU1 : Forall (fun y => In y U) (G1 ++ [B])).
+    { rewrite EG1 in HGU. apply Forall_app in HGU as [H1 H2]. apply Forall_app. split; [exact H1|].
+      constructor; [exact (Forall_inv H2) | constructor]. }
+    assert (HCU1 : Forall (fun y => In y U) (C1 ++ [B])).
+    { rewrite EC1 in HCU. apply Forall_app in HCU as [H1 H2]. apply Forall_app. split; [exact H1|].
+      constructor; [exact (Forall_inv H2) | constructor]. }
+    pose proof (linked_sorted U U_id U_uniq U_up Cn xc HlC HCU) as HSC.
+    assert (Hbn1 : In bn (C1 ++ [B])).
+    { rewrite EC1 in Hbn. apply in_app_or in Hbn as [H|[H|H]].
+      - apply in_or_app. left. exact H.
+      - apply in_or_app. right. left. exact H.
+      - exfalso. rewrite EC1 in HSC. apply StronglySorted_app_r in HSC. inversion HSC as [|? ? _ Hall]; subst.
+        rewrite Forall_forall in Hall. specialize (Hall bn H). unfold blt in Hall. lia. }
+    assert (Hsub : forall z, In z (G1 ++ [B]) -> In z G).
+    { intros z Hz. rewrite EG1. apply in_app_or in Hz as [Hz|[<-|[]]]; apply in_or_app; [left; exact Hz | right; left; reflexivity]. }
+    destruct (linked_same_end U U_uniq G1 C1 xg xc B HlG1 HlC1 HGU1 HCU1) as [[d Ed]|[d Ed]].
+    - apply Hsub. rewrite Ed, <- app_assoc. apply in_or_app. right. exact Hbn1.
+    - rewrite Ed, <- app_assoc in Hbn1. apply in_app_or in Hbn1 as [Hd|Hin]; [|apply Hsub; exact Hin].
+      exfalso.
+      assert (Hg0in : In g0 (G1 ++ [B])).
+      { rewrite EG in EG1. destruct G1 as [|g1 G1'].
+        - cbn [app] in EG1. injection EG1 as -> _. left. reflexivity.
+        - cbn [app] in EG1. injection EG1 as -> _. left. reflexivity. }
+      pose proof (linked_sorted U U_id U_uniq U_up (C1 ++ [B]) xc HlC1 HCU1) as HS1.
+      rewrite Ed, <- app_assoc in HS1.
+      assert (Hlt : forall a l2, StronglySorted blt (d ++ l2) -> In a d -> forall z, In z l2 -> bnum a < bnum z).
+      { clear. induction d as [|u d IH]; intros a l2 HS Ha z Hz; [destruct Ha|].
+        cbn [app] in HS. inversion HS as [|? ? HS' Hall]; subst. destruct Ha as [<-|Ha].
+        - rewrite Forall_forall in Hall. apply (Hall z). apply in_or_app. right. exact Hz.
+        - exact (IH a l2 HS' Ha z Hz). }
+      specialize (Hlt bn (G1 ++ [B]) HS1 Hd g0 Hg0in). lia.
+  Qed.
+
+  (* hub.SourceThroughCursor asked for a block number at or below the cursor block answers only when the cursor
+     block is on the head's segment (the branch for a cursor block stored off the chain being excluded) *)
+  Lemma through_proper_on_chain s V n cu burst hd sg :
+    VState U first kept s V ->
+    (forall hd sg, last_sent s = Some hd -> complete_segment (db s) (bref hd) = Some (sg, true) ->
+       find (ri (cu_blk cu)) (store (db s)) <> None -> block_in (ri (cu_blk cu)) sg = true) ->
+    n <= rn (cu_blk cu) ->
+    hub_through_cursor s n cu = BOk burst ->
+    last_sent s = Some hd -> complete_segment (db s) (bref hd) = Some (sg, true) ->
+    block_in (ri (cu_blk cu)) sg = true.
+  Proof.
+    intros HV Hon Hn Hb Hls Eseg.
+    unfold hub_through_cursor in Hb. replace (rn (cu_blk cu) <? n) with false in Hb by (symmetry; apply N.ltb_ge; exact Hn).
+    unfold blocks_through_cursor in Hb.
+    destruct (has_lib (db s)); [|discriminate]. cbn [negb] in Hb. rewrite Hls, Eseg in Hb.
+    destruct sg as [|s0 sg0]; [discriminate|].
+    destruct (n <? snum s0); [discriminate|].
+    destruct (block_in (ri (cu_blk cu)) (s0 :: sg0)) eqn:Eblk; [reflexivity|]. exfalso.
+    destruct (complete_segment (db s) (cu_blk cu)) as [[csg [|]]|] eqn:Ecs; try discriminate.
+    2:{ destruct csg; discriminate. }
+    destruct csg as [|c0 csg0]; [discriminate|].
+    pose proof (complete_segment_segment_of _ _ _ _ Ecs) as [Hcst _ Hctop _ _].
+    destruct (exists_last (l := c0 :: csg0)) as (q & z & Ez); [discriminate|].
+    destruct (Hctop q z Ez) as (Hzid & _ & _).
+    assert (Hzst : find (sid z) (store (db s)) = Some (sent z)) by (apply Hcst; rewrite Ez; apply in_or_app; right; left; reflexivity).
+    rewrite Hzid in Hzst. rewrite (Hon hd (s0 :: sg0) Hls Eseg) in Eblk; [discriminate|]. rewrite Hzst. discriminate.
+  Qed.
+End ThroughOn.
+
 Section TgtRun.
   Variable U : list block.
   Variable c : jcfg.
